@@ -14,7 +14,7 @@ From RU Require Import Base.Prelude Base.Utf8 Base.Utf8Facts Base.Outcome_c15 Mo
   Proofs.ListN Proofs.C02_Enc Proofs.C02_Parts Proofs.C02_Opaque Proofs.C02_Path Proofs.C02_PathL1 Proofs.C02_Reach
   Proofs.C02_AuthParts Proofs.C02_Auth Proofs.C02_AuthWf Proofs.C02_PathSp Proofs.C02_AuthSp Proofs.C02_AuthMain
   Proofs.C02_Hist Proofs.C02_SetQF Proofs.C02_Canon Proofs.C02_SetPort Proofs.C02_JoinTail Proofs.C02_ReachPartial
-  Proofs.C02_Form Proofs.C02_SetCred Proofs.C02_SetCredCanon.
+  Proofs.C02_Form Proofs.C02_SetCred Proofs.C02_SetCredCanon Proofs.C08_AbsNonfile.
 Open Scope N_scope.
 Open Scope list_scope.
 
@@ -137,6 +137,21 @@ Qed.
 Theorem reach_partial2 u : ReachC2 u ->
   Fixpoint_of_reparse dbg hp hpo hd u /\ wf_b u = true /\ ascii (ser u).
 Proof. intros H. exact (Canon_fixpoint dbg hp hpo hd HRT u (ReachC2_Canon u H)). Qed.
+
+(* C08's law 'an absolute URL's own serialization resolves to itself' for these histories: Canon is the class
+   nonfile_form of Proofs/C08_AbsNonfile.v, whose text never consults the base - against EVERY base record b *)
+Lemma Canon_nonfile_form u : Canon hp hpo hd u -> nonfile_form hp hpo hd u.
+Proof.
+  intros [sch P q f K | sch segs last q f K | sch ui h pt p q f K | sch ui h pt p q f K Kp].
+  - exact (NF_opaque hp hpo hd _ sch P q f K eq_refl).
+  - exact (NF_noauth hp hpo hd _ sch segs last q f K eq_refl).
+  - exact (NF_auth hp hpo hd _ sch ui h pt p q f K eq_refl).
+  - exact (NF_special hp hpo hd _ sch ui h pt p q f K Kp eq_refl).
+Qed.
+
+Theorem reach_absolute u b : ReachC2 u ->
+  parse_url dbg hp hpo hd None (Some b) (utf8_lossy (ser u)) = POk u.
+Proof. intros H. exact (absolute_form dbg hp hpo hd HRT b u (Canon_nonfile_form u (ReachC2_Canon u H))). Qed.
 
 Theorem ReachC2_Reachable3 u : ReachC2 u -> Reachable3 dbg hp hpo hd u.
 Proof.
